@@ -1,4 +1,5 @@
 """C14 - a prepared workflow can be run again and concurrently with identical results."""
+import json
 import random
 
 from .. import gen, harness, mon, ref, runfam
@@ -8,7 +9,16 @@ from ..model import Expr, In, Ref, Program, Step
 
 def base_program(rng, force=None):
     shape = force or rng.choice(["chain", "diamond", "fan_in", "wait_for", "enabled", "foreach", "foreach", "foreach_after", "random_dag", "deploy_expr", "functions", "functions",
-                        "fault_by_input", "fault_by_input", "oneof_ordered", "deploy_by_input", "legacy_output"])
+                        "fault_by_input", "fault_by_input", "oneof_ordered", "deploy_by_input", "legacy_output", "engine_messages", "engine_messages"])
+    if shape == "engine_messages":
+        # texts the engine and the providers compose themselves (disabled message, crash report, deployment failure): a run's
+        # result must not show whether other runs were in progress
+        from ..model import Not
+        a = gen.plugin_step("a", Expr(In("tag")), enabled=Expr(Not(In("flag"))))
+        b = gen.plugin_step("b", Expr(In("tag")))
+        c = gen.plugin_step("c", Expr(In("tag")))
+        outs = {"report": {"disabled": Expr(Ref("a", "disabled", "output", "message")), "crash": Expr(Ref("b", "crashed", "error", "output")), "undeployed": Expr(Ref("c", "deploy_failed", "error", "error"))}}
+        return shape, [a, b, c], outs
     if shape == "legacy_output":
         # the deprecated single `output:` form (rewritten into `outputs` whenever the text is prepared)
         steps, outs = gen.shape_chain(rng, rng.choice([1, 2]))
@@ -74,7 +84,7 @@ def run(check):
             prog.legacy_output = outs["success"]
         N = rng.choice([2, 2, 4, 8, 16] if check.quick() else [2, 4, 8, 16, 32])
         mode = rng.choice(["sequential", "overlapped", "overlapped", "mixed", "overlapped+cancel"])
-        scripts = gen.make_scripts(steps, {})
+        scripts = gen.make_scripts(steps, {"b": "crash", "c": "deployfail"} if shape == "engine_messages" else {})
         has_fe = any(s.kind == "foreach" for s in steps)
         plugin_srcs = [s.src for s in steps if s.kind == "plugin"]
         inputs, fail_tags = [], {}
@@ -143,7 +153,7 @@ def run(check):
     papi = []
     for i in range(check.pick(20, 150)):
         rng = random.Random(derive_seed(check.seed, "c14-papi", i))
-        shape, steps, outs = base_program(rng, force="legacy_output" if i % 4 == 0 else None)
+        shape, steps, outs = base_program(rng, force="legacy_output" if i % 4 == 0 else ("foreach" if i % 4 == 1 else None))
         prog = Program(steps, outs, gen.BASE_INPUT)
         if shape == "legacy_output":
             prog.legacy_output = outs["success"]
@@ -201,6 +211,15 @@ def run(check):
                 check.report("runs@%s:%s" % (mode, v[0]), "%s N=%d %s, run %d (tag %s): %s" % (shape, N, mode, r, tags[r], v[1]), {"case": case, "run": rr, "result": runfam.strip(res, 200)})
             if rr.get("err"):
                 failed_before = True
+        if shape == "engine_messages":
+            texts = {}
+            for r, rr in enumerate(runs):
+                if r != cancelled:
+                    texts.setdefault(json.dumps([rr.get("out_id"), ref.denum(rr.get("data")), bool(rr.get("err"))], sort_keys=True, default=str), []).append(tags[r])
+            stats["message_results_compared"] = stats.get("message_results_compared", 0) + sum(len(v) for v in texts.values())
+            if len(texts) > 1:
+                check.report("runs@engine-text-varies", "%s N=%d %s: runs with equal inputs (but for their tag) returned different engine-composed texts: %s" % (
+                    shape, N, mode, [(k[:200], v[:3]) for k, v in texts.items()][:3]), {"case": case, "result": runfam.strip(res, 200)})
         if shape == "oneof_ordered":
             which = {}
             for r, rr in enumerate(runs):
